@@ -340,7 +340,7 @@ func (e *Engine) trustedBase() []string {
 		}
 	}
 	if e.spec.WfNonNil {
-		out = append(out, "wf nonnil-elements: the pointer slices held in the parser's structures ([]*Option, []*Group, []*Command, []*Arg) contain no nil element (assumed at element reads)")
+		out = append(out, "wf nonnil-elements: the pointer slices held in the parser's structures ([]*Option, []*Group, []*Command, []*Arg) contain no nil element, and the embedded *Group of a Command / *Command of a Parser is never nil (assumed at reads)")
 	}
 	out = append(out,
 		"govc itself: Go-subset semantics, VC generation, cone-of-influence filter (drops hypotheses only)",
